@@ -77,6 +77,16 @@ def finalizePruned (jt : JetTypes) (leak : Bool) (p : Plan) (program : Bool) (ca
     | .noTerm => .illTyped
   | o => o
 
+/-- the case sides the tracker of the modelled run recorded (`none`: no program, or the run failed) -/
+def runSides (jt : JetTypes) (p : Plan) (program : Bool) (cand : Nat → Option Val) (re : RunEnv) :
+    Option (List (Nat × Bool)) :=
+  match routeU jt p program cand with
+  | .ok ar r =>
+    match trackedRun p ar r re with
+    | .ok tr => some tr.sides
+    | _ => none
+  | _ => none
+
 /-! ### well-formed plans: what the plan parser and the library's constructors guarantee -/
 
 /-- the shape conditions on a single node: a `disconnect` has its right child, a word node has
